@@ -60,9 +60,12 @@ structure Template where
   deriving DecidableEq, Repr
 
 /-- `RuntimeState(default_state)` : `copy.deepcopy(DEFAULT_RUNTIME_STATE)`, then
-    `.update(default_state)` with the (boolean) defaults of the config; the inline overlay is empty -/
-def RState.ofTemplate (t : Template) (overlay : List (String × Bool)) : RState :=
-  { gBools := overlay.foldl (fun acc kv => alSet kv.1 kv.2 acc) t.bools, gReq := t.req }
+    `.update(copy.deepcopy(default_state))` (405bdaf: the caller's defaults are COPIED, a REQUIRES set
+    among them is not shared with the run): boolean defaults, and optionally a REQUIRES set that
+    replaces the template's; the inline overlay is empty -/
+def RState.ofTemplate (t : Template) (overlay : List (String × Bool)) (reqOverlay : Option (List Str) := none) :
+    RState :=
+  { gBools := overlay.foldl (fun acc kv => alSet kv.1 kv.2 acc) t.bools, gReq := reqOverlay.getD t.req }
 
 theorem RState.ofTemplate_pristine (overlay : List (String × Bool)) :
     RState.ofTemplate {} overlay = RState.init overlay := rfl
@@ -75,8 +78,11 @@ structure DocDef where
   /-- the doctest belongs to a module (`self.module` is set by the pre-import); `false` for
       doctests made from a bare string (`<modname?>`) : nothing is copied into the namespace -/
   hasModule : Bool := true
-  /-- `config['default_runtime_state']` (shared by reference by the runner; booleans) -/
+  /-- `config['default_runtime_state']` (the dict is shared by reference by the runner; every run
+      deep-copies it): the boolean entries … -/
   defaults : List (String × Bool) := []
+  /-- … and its `REQUIRES` entry, if any (a set given through the API) -/
+  defaultsReq : Option (List Str) := none
   /-- `'REPORT_' + config['reportchoice'].upper()` -/
   reportKey : String := "REPORT_UDIFF"
   deriving Repr
@@ -131,7 +137,7 @@ def nsAfter (ns : NS) (s : RunState NS) (ending : RunEnd) : NS :=
 
 /-- the run state a run starts from: built from the template and the config, from nothing else -/
 def freshRs (t : Template) (d : DocDef) : RState :=
-  (RState.ofTemplate t d.defaults).setReportStyle d.reportKey
+  (RState.ofTemplate t d.defaults d.defaultsReq).setReportStyle d.reportKey
 
 /-- the namespace the executed parts start from -/
 def startEnvOf (d : DocDef) (moduleGlobals ns : NS) : NS :=
